@@ -236,7 +236,7 @@ func runC15(c *Ctx, r *Report) {
 	{
 		// success returns that are reached without passing a send on the output channel and without the traversal
 		ef := &Flow{P: p, Fn: it, Entry: Facts{}}
-		isAmount := func(e ast.Expr) bool {
+		mentionsAmount := func(e ast.Expr) bool {
 			found := false
 			ast.Inspect(e, func(m ast.Node) bool {
 				if se, ok := m.(*ast.SelectorExpr); ok && se.Sel.Name == "Amount" {
@@ -244,19 +244,30 @@ func runC15(c *Ctx, r *Report) {
 				}
 				return !found
 			})
-			if id, ok := ast.Unparen(e).(*ast.Ident); ok && !found {
-				if v, isVar := p.ObjOf(it, id).(*types.Var); isVar {
-					if def := p.SoleDef(it, v); def != nil {
-						ast.Inspect(def, func(m ast.Node) bool {
-							if se, ok := m.(*ast.SelectorExpr); ok && se.Sel.Name == "Amount" {
-								found = true
-							}
-							return !found
-						})
+			return found
+		}
+		amountVars := map[types.Object]bool{}
+		walkNoLit(it.Body, func(n ast.Node) bool {
+			if as, ok := n.(*ast.AssignStmt); ok && len(as.Lhs) == len(as.Rhs) {
+				for i, l := range as.Lhs {
+					if id, ok := ast.Unparen(l).(*ast.Ident); ok && mentionsAmount(as.Rhs[i]) {
+						if o := p.ObjOf(it, id); o != nil {
+							amountVars[o] = true
+						}
 					}
 				}
 			}
-			return found && isIntType(p.TypeOf(it, e))
+			return true
+		})
+		isAmount := func(e ast.Expr) bool {
+			if !isIntType(p.TypeOf(it, e)) {
+				return false
+			}
+			if mentionsAmount(e) {
+				return true
+			}
+			id, ok := ast.Unparen(e).(*ast.Ident)
+			return ok && amountVars[p.ObjOf(it, id)]
 		}
 		ef.Edge = func(cond ast.Expr, taken bool, f Facts) {
 			for _, a := range splitCond(cond, taken) {
@@ -265,30 +276,56 @@ func runC15(c *Ctx, r *Report) {
 				}
 			}
 		}
-		ef.Node = func(n ast.Node, f Facts) {
+		ef.Run()
+		// "untouched": no path fact but a may-fact — some path reaches here without having locked the log or
+		// started the traversal (error paths of a spliced-in helper merge with its success path, so the
+		// opposite must-fact would be lost there)
+		touches := func(fn *Fn, call *ast.CallExpr) bool {
+			if cf := p.Callee(fn, call); cf != nil && cf.Pkg() != nil && cf.Pkg().Path() == "sync" && (cf.Name() == "RLock" || cf.Name() == "Lock") {
+				return true
+			}
+			return c.CallReaches(fn, call, func(f2 *types.Func) bool { return f2.Name() == "traverse" && p.firstParty(f2.Pkg()) })
+		}
+		uf := &Flow{P: p, Fn: it, May: true, Entry: Facts{"untouched": true}}
+		uf.Node = func(n ast.Node, f Facts) {
 			walkNoLit(n, func(nd ast.Node) bool {
 				switch x := nd.(type) {
 				case *ast.CallExpr:
-					if cf := p.Callee(it, x); cf != nil && cf.Name() == "traverse" {
-						f["looked"] = true
+					if touches(it, x) {
+						delete(f, "untouched")
+					}
+				case *ast.FuncLit:
+					if lf := p.ByLit[x]; lf != nil {
+						ast.Inspect(x.Body, func(m ast.Node) bool {
+							if c2, ok := m.(*ast.CallExpr); ok && touches(lf, c2) {
+								delete(f, "untouched")
+							}
+							return true
+						})
 					}
 				}
 				return true
 			})
 		}
-		ef.Run()
+		uf.Run()
+		untouchedAt := map[*ast.ReturnStmt]bool{}
+		uf.Exits(func(_ *cfgBlk, ret *ast.ReturnStmt, at Facts) {
+			if ret != nil && at["untouched"] {
+				untouchedAt[ret] = true
+			}
+		})
 		nearly := 0
 		ef.Exits(func(_ *cfgBlk, ret *ast.ReturnStmt, at Facts) {
-			if ret == nil {
+			if ret == nil || !untouchedAt[ret] {
 				return
 			}
 			isNil, hasErr := errResultIsNil(p, it, ret)
-			if !hasErr || !isNil || at["looked"] {
+			if !hasErr || !isNil {
 				return
 			}
 			nearly++
 			r.Check(at["zero-amount"], "R-C15.12", r.Key("R-C15.12", it, "early-success", ""), ret.Pos(), "the early success return is reached only with an amount known to be zero",
-				"Iterator returns success without traversing the log on a path where the requested amount is not known to be zero: a request for one (or more) entries is answered with none")
+				"Iterator returns success without having looked at the log on a path where the requested amount is not known to be zero: a request for one (or more) entries is answered with none")
 		})
 		if nearly == 0 {
 			r.Hold("R-C15.12", r.Key("R-C15.12", nil, "no-early-success", ""), token.NoPos, true, "every success return of Iterator follows the traversal")
